@@ -30,6 +30,7 @@ func init() {
 		Run:  c17Ctor})
 	register(&Rule{ID: "C17.hostfree", Floor: 150,
 		Text: "outside vfs_ostype_off.go (the untagged host pass-through), osfs/osidm and the host detection itself, no function of the emulation refers to a host-dependent path facility (path/filepath functions or Separator, os.PathSeparator, os.IsPathSeparator, runtime.GOOS, os.Getwd/TempDir); host-independent sentinel values (SkipDir, SkipAll, ErrBadPattern) are allowed",
+		Also: []string{"C13", "C10"},
 		Run:  c17HostFree})
 }
 
